@@ -33,14 +33,14 @@ HasLine == l <= Len(Trace)
 \* the abstract requests of a case: offsets from Wire; a literal (raw) request is malformed; a body over the
 \* configured limit is "big"; when the peer closes at offset cut (> 0) the request containing it is partial and
 \* later ones never arrive
-HClose(rs, i) == i \in DOMAIN rs /\ rs[i].close
-Abstract(s, rs, maxBody, cut) ==
+HClose(rs, bs, i) == (i \in DOMAIN rs /\ rs[i].close) \/ (i \in DOMAIN bs /\ bs[i] = "hijack")
+Abstract(s, rs, bs, maxBody, cut) ==
     LET o == Offsets(s)
         n == IF cut = 0 THEN Len(s) ELSE Cardinality({i \in 1 .. Len(s) : o[i].start < cut})
     IN [i \in 1 .. n |-> [start |-> o[i].start, headEnd |-> o[i].headEnd,
                           end |-> IF cut > 0 /\ cut < o[i].end THEN cut ELSE o[i].end,
                           bodyLen |-> s[i].bodyLen, expect100 |-> s[i].expect100 /\ s[i].raw = "",
-                          close |-> s[i].close /\ s[i].raw = "", hclose |-> HClose(rs, i), bad |-> s[i].raw # "",
+                          close |-> s[i].close /\ s[i].raw = "", hclose |-> HClose(rs, bs, i), bad |-> s[i].raw # "",
                           big |-> (maxBody > 0 /\ s[i].bodyLen > maxBody),
                           partial |-> (cut > 0 /\ o[i].start < cut /\ cut < o[i].end)]]
 
@@ -69,7 +69,7 @@ Beh(i) == IF i \in DOMAIN behs THEN behs[i] ELSE "ok"
 TraceCase == /\ HasLine /\ Line.ev = "Case" /\ ~active
              /\ \A i \in DOMAIN Line.script : WellFormedReq(Line.script[i])
              /\ script' = Line.script /\ active' = TRUE /\ readDone' = FALSE /\ eofSeen' = FALSE /\ unread' = FALSE
-             /\ reqs' = Abstract(Line.script, Line.resps, Line.cfg.maxBody, Line.cfg.truncate)
+             /\ reqs' = Abstract(Line.script, Line.resps, Line.behs, Line.cfg.maxBody, Line.cfg.truncate)
              /\ cfg' = [streaming |-> Line.cfg.streaming, idle |-> Line.cfg.idle, trace |-> Line.cfg.trace # "off", wfail |-> Line.cfg.wfail]
              /\ behs' = Line.behs /\ level' = Line.cfg.trace /\ resps' = Line.resps
              /\ sent' = 0 /\ eof' = FALSE /\ rd' = 0 /\ phase' = "idle" /\ cur' = 1 /\ cons' = 0 /\ interim' = FALSE
